@@ -161,6 +161,29 @@ V('c19-p-reset-clear', 'C19', 'preserve', [(F, "    [\n        remove_plugin(sco
 from . import variants_tpl as _tpl      # noqa: E402
 _tpl.register(V)
 
+# ---------------------------------------------------------------------------- global preserving rewrites
+_ALL = ['C01', 'C02', 'C03', 'C04', 'C05', 'C06', 'C07', 'C08', 'C09', 'C11', 'C12', 'C13', 'C14', 'C15', 'C16',
+        'C17', 'C19', 'C20']
+for _p in _ALL:
+    VARIANTS.append({'id': f'{_p.lower()}-p-reformat-all', 'prop': _p, 'kind': 'preserve', 'edits': [],
+                     'transform': ('reformat',)})
+    VARIANTS.append({'id': f'{_p.lower()}-p-rename-locals-vm', 'prop': _p, 'kind': 'preserve', 'edits': [],
+                     'transform': ('rename', F, {'subtape': 'inner_tape', 'def_data': 'body_bytes', 'def_size': 'body_len',
+                                                 'confirmed': 'ok_sigs', 'vkeys': 'candidates', 'init_pointer': 'saved_ptr',
+                                                 'allowable_flags': 'permitted', 'root_hash': 'committed_root',
+                                                 'loop_def': 'loop_body', 'difference': 'ahead_by',
+                                                 'pubkey_or_sig': 'next_item', 'n_copies': 'howmany'})})
+    VARIANTS.append({'id': f'{_p.lower()}-p-rename-vm-params', 'prop': _p, 'kind': 'preserve', 'edits': [],
+                     'transform': ('rename', F, {'stack': 'stk', 'cache': 'regs', 'sig_flag': 'sflag', 'constraint': 'bound',
+                                                 'n_items': 'how_many', 'skey_seed': 'seed_bytes'})})
+    VARIANTS.append({'id': f'{_p.lower()}-p-rename-locals-parser', 'prop': _p, 'kind': 'preserve', 'edits': [],
+                     'transform': ('rename', P, {'code_lines': 'listing', 'def_lines': 'fn_lines', 'if_len': 'then_len',
+                                                 'symbols_to_advance': 'consumed', 'search_idx': 'stop_at',
+                                                 'closing_brace_index': 'close_at', 'except_len': 'handler_len',
+                                                 'current_symbol': 'sym_now', 'val': 'opnd', 'op_name': 'mnemonic',
+                                                 'else_len': 'alt_len', 'hoist_code': 'cond_code'})})
+
+
 # ---------------------------------------------------------------------------- seeded changes
 def _load_seeded():
     import json, os
